@@ -5,7 +5,7 @@ use crate::gen;
 use crate::oracle::{classify, Out};
 use crate::refenc::{self, ACh, AHs, ASh, HS_VARIANTS, W};
 use crate::rng::Rng;
-use crate::visit::{first_outside, Slices};
+use crate::visit::{first_outside, Slices, veq};
 use serde_json::json;
 use tls_parser::*;
 
@@ -48,7 +48,7 @@ fn roundtrip(ctx: &mut Ctx, v: &AHs, x: &[u8], fam_note: &str) {
         let r = parse_tls_message_handshake(&input);
         let out = classify(&r);
         match &r {
-            Ok((_, m)) => (out, Some(*m == exp), format!("{:.400?}", m)),
+            Ok((_, m)) => (out, Some(veq(m, &exp)), format!("{:.400?}", m)),
             Err(_) => (out, None, String::new()),
         }
     });
@@ -93,7 +93,7 @@ macro_rules! body_check {
             let r = $call;
             let out = classify(&r);
             match &r {
-                Ok((_, v)) => (out, Some(*v == $exp), format!("{:.300?}", v)),
+                Ok((_, v)) => (out, Some(veq(v, &$exp)), format!("{:.300?}", v)),
                 Err(_) => (out, None, String::new()),
             }
         });
@@ -377,7 +377,7 @@ pub fn run(ctx: &mut Ctx) {
                 ctx.eval();
                 ctx.count("4gib.cases");
                 ctx.shape(&("4gib", variant, extra));
-                let good = matches!(&res, Ok((rem, m)) if *m == exp && rem.len() == whole.len() - enc.len());
+                let good = matches!(&res, Ok((rem, m)) if veq(m, &exp) && rem.len() == whole.len() - enc.len());
                 if !good {
                     ctx.violation(format!("c04:roundtrip:{}:4GiB-buffer", v.variant_name()), json!({"variant": v.variant_name(), "buffer_len": whole.len(), "outcome": classify(&res).show(), "message_hex": hex_short(&enc)}));
                 }
@@ -573,7 +573,7 @@ pub fn run(ctx: &mut Ctx) {
             let res = f(&long, n);
             let out = classify(&res);
             match &res {
-                Ok((_, g)) => (out, Some(*g == exp), format!("{:.200?}", g)),
+                Ok((_, g)) => (out, Some(veq(g, &exp)), format!("{:.200?}", g)),
                 Err(_) => (out, None, String::new()),
             }
         }) {
